@@ -92,10 +92,28 @@ def decide(pid, tier, seed):
         return 2
     known = load_known()
     notes = []
-    g = P.generate()
-    gi = P.GenIndex(g["gen_text"])
-    r = P.run_verus(g["gen_path"], g["gen_text"], label="main")
-    fails, tools, res = P.obligations_from(r, gi)
+    quarantined = []
+    for _round in range(4):
+        g = P.generate(quarantined=quarantined)
+        gi = P.GenIndex(g["gen_text"])
+        r = P.run_verus(g["gen_path"], g["gen_text"], label="main")
+        fails, tools, res = P.obligations_from(r, gi)
+        # an unsupported construct inside one function body: take that function out (it is then
+        # assumed, not proved: every property tagged on it becomes undecided) and decide the rest
+        bad = set()
+        for t in tools:
+            f = gi.func_at(t["line"]) if t["line"] else None
+            if f and f["mode"] == "exec" and not f["external_body"] and ("not supported" in t["message"] or "unsupported" in t["message"].lower()
+                                                                          or "does not yet support" in t["message"]):
+                bad.add(f["name"])
+        if not bad or not tools:
+            break
+        quarantined = sorted(set(quarantined) | bad)
+    if quarantined:
+        notes.append("functions taken out because Verus cannot read their bodies (unsupported construct): " + ", ".join(quarantined))
+        hit = [q for q in quarantined if any(f["name"] == q and pid in f["props"] for f in gi.funcs)]
+        if hit:
+            raise P.Undecided("unsupported construct in %s, which carries obligations of %s" % (", ".join(hit), pid))
     if r["summary"] is None:
         raise P.Undecided("verus produced no summary: " + " ".join(r["stderr_other"][-5:]))
     if tools:
